@@ -196,8 +196,10 @@ def _pick_target(rng):
     u = rng.random()
     if u < 0.70:
         return {'mode': 'rel', 'x': 10 ** rng.uniform(-9, 1)}
-    if u < 0.92:
+    if u < 0.88:
         return {'mode': 'rel', 'x': rng.uniform(0.5, 1.0)}    # between "already below" and "almost below"
+    if u < 0.92:
+        return {'mode': 'rel', 'x': 1 - 10 ** rng.uniform(-8, -3)}   # a hair below the activity at removal
     return {'mode': 'rel', 'x': rng.uniform(1.0, 1.5)}
 
 
@@ -364,6 +366,10 @@ def check_decay(ctx, case):
         'has_negative': bool(has_negative0 or any(v < 0 for v in entries)),
         'has_zero_product': any(v == 0 for v in entries),
         'overflow_ratio': max([To * LN2 / th for _, th in prods] or [0]),
+        # largest exponent the reconstruction exp(La*(To - t)) can meet for t >= the initial guess:
+        # La*To + log(target/A_j(0)) when product j alone is below the target (its own guess is negative)
+        'overflow_exponent_bound': max([To * LN2 / th + max(0.0, math.log(target / a)) for a, th in prods if a > 0]
+                                       or [0]),
         'mode': tm['mode'], 'nproducts': len(prods), 'A0_minus_target': A0 - target,
     }
     off = case.get('inject_offset')
@@ -480,6 +486,9 @@ def classify(rec):
                                                         not in (None, 'OverflowError'))):
             if (d.get('overflow_ratio') or 0) > 700 and not d.get('via_find_root'):
                 # exp(La*To) while reconstructing the activity at removal from the smallest rest time
+                return 'c15.rest-time-overflow'
+            if (d.get('overflow_exponent_bound') or 0) > 700 and d.get('where') == '<genexpr>':
+                # the same reconstruction evaluated at the (negative) initial guess of a negligible product
                 return 'c15.rest-time-overflow'
             if d.get('via_find_root') and sib in ('accepted', 'runtime-error'):
                 # Newton driven the wrong way by the (To-1) factor until exp() overflows
